@@ -60,6 +60,23 @@ def components(sim):
     return comps, clean, views
 
 
+def one_way_neighbour(sim, comp, views):
+    """ A live outsider that reaches a member one way only keeps flapping CHECKING/FAILED in that member's view:
+    membership never stops changing, the premise of C01/C08 is not met. """
+    for inst in sim.instances.values():
+        if not inst.alive or inst.supvisors is None or inst.nick in comp:
+            continue
+        for n in comp:
+            member = sim.instances[n]
+            a, b = sim.connectable(inst.nick, n), sim.connectable(n, inst.nick)
+            if a != b:
+                if views[n][2].get(inst.identifier) == 'ISOLATED' or \
+                        views[inst.nick][2].get(member.identifier) == 'ISOLATED':
+                    continue
+                return True
+    return False
+
+
 def sync_satisfiable(config, comp):
     """ Can the members of this component leave SYNCHRONIZATION and stay out of it (DESIGN section 6, C08)? """
     synchro, core, strategy = effective_options(config)
@@ -131,12 +148,13 @@ class MasterConvergence(Observer):
         # sample the declared masters at most every 2 simulated seconds
         if self.samples and sim.now_us - self.samples[-1][0] < 2 * US:
             return
-        decl = {}
+        decl, fsm = {}, {}
         for i in sim.instances.values():
             if i.alive and i.supvisors is not None:
                 ident = i.supvisors.state_modes.master_identifier
                 decl[i.nick] = sim.by_identifier.get(ident, ident) if ident else ''
-        self.samples.append((sim.now_us, decl))
+                fsm[i.nick] = i.supvisors.fsm.state.name
+        self.samples.append((sim.now_us, decl, fsm))
 
     def finish(self):
         sim, config = self.sim, self.run.config
@@ -161,6 +179,9 @@ class MasterConvergence(Observer):
                 continue
             if not sync_satisfiable(config, comp):
                 self._probe('skipped_sync_not_satisfiable')
+                continue
+            if one_way_neighbour(sim, comp, views):
+                self._probe('skipped_one_way_neighbour')
                 continue
             self._probe('component_checked')
             if len(comp) > 1:
@@ -191,7 +212,7 @@ class MasterConvergence(Observer):
 
     def _check_kept(self, comp, m_final, detail):
         sim = self.sim
-        for t_us, decl in self.samples:
+        for t_us, decl, fsm in self.samples:
             if t_us <= self.global_disturb_us:
                 continue
             named = {m for n, m in decl.items() if m}
@@ -199,6 +220,10 @@ class MasterConvergence(Observer):
                 continue
             m = next(iter(named))
             if m not in comp or decl.get(m) != m:
+                continue
+            # an *established* Master: it has completed its election (the code only lets it reach a working state
+            # once every instance it sees RUNNING declares it)
+            if fsm.get(m) not in WORKING:
                 continue
             if t_us <= self.disturb_us.get(m, -1):
                 continue
@@ -290,6 +315,9 @@ class Liveness(Observer):
                 continue
             if not sync_satisfiable(config, comp):
                 self._probe('skipped_sync_not_satisfiable')
+                continue
+            if one_way_neighbour(sim, comp, views):
+                self._probe('skipped_one_way_neighbour')
                 continue
             self._probe('component_checked')
             detail = {'component': comp, 'states': states, 'quiet_s': round(quiet_s, 1),
